@@ -40,7 +40,11 @@ RULE_ADDED = (
               'Round 8: requests whose string fields (key ids, every hex field, mode and comman'
               'd names) are long runs of locally valid characters ending in an invalid one, sen'
               't to the entry-point child process; a request unanswered after 60 s of wall cloc'
-              'k (answers take milliseconds) while the process lives is a violation. ')
+              'k (answers take milliseconds) while the process lives is a violation. '
+              ' '
+              'Round 9: lines of 5 KB..70 KB (thorough 1 MB) holding runs of 2-, 3- and 4-byte '
+              'UTF-8 characters in every alignment, in ignored fields, key ids, command names a'
+              'nd outside JSON. ')
 RULE = RULE + " " + RULE_ADDED.strip()
 ASSUMPTIONS = [
     "simulated device keeps to its protocol (firmware-like chunking, well-formed answers)",
